@@ -102,6 +102,54 @@ CHECKS['C15'] = {
     'technique': 'dominance/post-dominance rules over clang CFG, def-use of the returned handle, field-completeness from class facts',
 }
 
+CHECKS['C05'] = {
+    'text': 'Abstract interpretation (eppsa/slots.py) of the EMPTY/FULL slot protocol, list contents and element counts over every processing '
+            'function of both queues, with helpers that receive slot lists interpreted at the call site: every get/clear/set meets the protocol, '
+            'only FULL slots re-enter queueList and only EMPTY ones are recycled, `return true` needs a certainly consumed slot; positional rules '
+            '(enqueue at end, take at begin, put-back at begin); single take site outside loops and never after user code; queued dispatch passes '
+            'the slot\'s own event and stored arguments in index order; stored-by-value witness; no use-after-move on enqueue/take.',
+    'note': COMMON_NOTE + 'Not decided: FIFO across arbitrary histories beyond the positional invariants; argument values. The interpretation joins paths (path-insensitive except for emptiness/cursor tests).',
+    'technique': 'typestate abstract interpretation over clang CFG (slot states, list contents with cardinality, cursor split), dominance rules, use-after-move',
+}
+CHECKS['C12'] = {
+    'text': 'Gate dominance (listener invocation only on the true edge of the mixin chain, evaluated before lookup) in both dispatchers and the '
+            'heterogeneous doDispatch; mixin chain extracted as a conjunction in list order; filters and listeners receive the same parameter objects '
+            '(lvalue references, no copy); mixinBeforeDispatch formula equals the forEachIf result with lvalue arguments; both operator() variants call '
+            'canContinueInvoking after every callback with the same parameters and stop on false; ConditionalFunctor and ArgumentAdapter shapes.',
+    'note': COMMON_NOTE + 'Not decided: what filters do to values, conversion semantics of user types; "removed filters never run again" is C01/C02 on the filter list.',
+    'technique': 'dominance over clang CFG, boolean formula extraction with truth-table equivalence, def-use identity of argument objects',
+}
+CHECKS['C13'] = {
+    'text': 'Every splice overload of OrderedQueueList performs the base splice with its own arguments and then doSort on every path; only whitelisted '
+            'non-inserting base members are applied to ordered lists (emplace_back only on locals); doSort is std::list::sort with the library lambda; '
+            'the lambda\'s extracted formula is checked exhaustively (8 emptiness x 13 orderings of three slots) to be a strict weak order that equals compare '
+            'on full slots, sorts emptied slots first and evaluates get() only on full slots; SelectQueueList witness.',
+    'note': COMMON_NOTE + 'Trusted: stability and correctness of std::list::sort; the user comparator being a strict weak order.',
+    'technique': 'post-dominance rules, callee whitelist over resolved calls, comparator formula extraction + exhaustive law check',
+}
+CHECKS['C16'] = {
+    'text': 'Path rules over the four wrapper call operators: exactly one decrement / one condition evaluation (lvalue arguments), removal of the '
+            'wrapper\'s own handle from its own target guarded only by that result and placed before the single listener call; removal guard normalised '
+            'to "count after decrement <= 0"; in all 12 add functions the shared state is initialised from the function\'s own arguments and data->handle '
+            'is the handle returned by the add call made with a wrapper over the same data.',
+    'note': COMMON_NOTE + 'Not decided: counts over histories as such (follow with C01/C02); purity of user conditions.',
+    'technique': 'dominance/post-dominance over clang CFG, guard normal form, def-use of handle and shared state',
+}
+CHECKS['C18'] = {
+    'text': 'Extracted formulas of AnyId operator==, operator< (compareEqual/compareLessThan overload selected per storage inlined) evaluated over all 13 '
+            'weak orderings of digests x 13 of stored values (or no value comparison) of three ids: equivalence, strict weak order, incomparable <=> equal, '
+            'equal => same digest, value/empty storage clauses; std::hash reads only the digest; hashed map selection witness. Exhaustive over orderings.',
+    'note': COMMON_NOTE + 'Assumes the digester is a function and the stored type\'s ==/< are an equivalence / strict weak order consistent with each other.',
+    'technique': 'boolean formula extraction with inlining, exhaustive enumeration of orderings (finite since values are touched only through comparisons)',
+}
+CHECKS['C19'] = {
+    'text': 'getNextCounter: result variable drawn by atomic pre-increment, tested against 0, redrawn on every path of the zero edge, unsigned type; on '
+            'the zero edge a recognised walk from head over next rewrites every linked node to the constant 1 under the mutex before the redraw; traversal '
+            'comparison non-strict with no extra guard; swap exchanges and move assignment transfers the counter with the nodes.',
+    'note': COMMON_NOTE + 'Not decided: arithmetic over 2^32 additions as such; concurrent wraps.',
+    'technique': 'zero/non-zero path analysis, loop-idiom recognition, lockset, def-use in swap/move',
+}
+
 NOT_APPLICABLE = {
 }
 for _i in range(1, 21):
